@@ -754,6 +754,48 @@ func checkMergeSymmetry(c *core.Ctx, prog *core.Prog) {
 		if len(ps) != 2 {
 			continue
 		}
+		// (w) the operands are inputs: nothing is stored through them (a result field assigned to an operand by
+		// mistake is lost for the result and changes the operand's schema for every other user of it), and
+		// (d) nothing the merge computes into a local slice is dropped: a slice that is only ever written
+		for _, g := range core.AllFuncs(fn) {
+			for _, b := range g.Blocks {
+				for _, in := range b.Instrs {
+					switch x := in.(type) {
+					case *ssa.Store:
+						root := effects.RootOf(x.Addr)
+						if root.Kind == effects.Param {
+							for _, p := range ps {
+								if root.Val == ssa.Value(p) {
+									r.Fail(fmt.Sprintf("merge-writes-operand:%s:%s", name, p.Name()), c.Pos(x.Pos()), fmt.Sprintf("%s stores into its operand %s: the merged value is lost for the result and the operand's schema (shared with every other reference to it) is modified", name, p.Name()))
+								}
+							}
+						}
+					case *ssa.MakeSlice:
+						onlyWritten := true
+						nWrites := 0
+						for _, ref := range *x.Referrers() {
+							switch u := ref.(type) {
+							case *ssa.IndexAddr:
+								for _, uu := range *u.Referrers() {
+									if st, ok := uu.(*ssa.Store); ok && st.Addr == ssa.Value(u) {
+										nWrites++
+									} else {
+										onlyWritten = false
+									}
+								}
+							case *ssa.DebugRef:
+							default:
+								onlyWritten = false
+							}
+						}
+						if onlyWritten && nWrites > 0 {
+							r.Fail(fmt.Sprintf("merge-drops-result:%s", name), c.Pos(x.Pos()), fmt.Sprintf("%s fills a local slice and never reads, stores or returns it: what was merged into it is dropped from the result", name))
+						}
+					}
+				}
+			}
+		}
+		r.Pass(fmt.Sprintf("%s: operands are not written; no merged slice is dropped", name))
 		reads := []map[string]bool{{}, {}}
 		for i, p := range ps {
 			var visit func(v ssa.Value, depth int)
